@@ -177,3 +177,66 @@ Example C10_catcher_nonvacuous :
                  [0; 0; 0; 1; 0; 1; 1; 2; 2; 2; 1; 1; 1] = Some s /\
             map snd (kerrs s) = [7; 8; 9] /\ kprog s 0 = [] /\ kprog s 1 = [] /\ kprog s 2 = [].
 Proof. eexists. split; [vm_compute; reflexivity|]. vm_compute. repeat split; reflexivity. Qed.
+
+(* ------------------------------------------------------------------ oracle soundness *)
+(* The run-time check evaluates [c10_ok_sync] / [c10_ok_buffered] / [c10_ok_catcher]
+   (Model/SysBuffered.v) on what the Go wrappers did.  They accept the observation the MODEL
+   yields under every schedule.  Observations are built as ocaml/c10_run.ml builds them from the
+   harness's line (definitions in Proofs/OracleC10.v):
+   [obs_adds pre h]    one record per Add among the completed operations h: producer, sequence
+                       number, "returned nil", "is among pre" (pre = the buffered Adds that had
+                       returned nil at the cancel event);
+   [log s]             the decoded output; the number of panics is 0 (the model has none);
+   [cat_expected progs] the non-nil errors handed to catcher.Add; Errors() = [kerrs s].
+   The harness's producers issue only Adds, producer g the samples (g,0), (g,1), ... :
+   [sync_progs] / [buf_progs] = every program is  map OAdd vs / map OBAdd vs  with vs strictly
+   increasing.  (The oracles' order clause and "exactly once" clauses speak about such runs.)
+   The witness schedule the driver additionally searches for is correspondence, not oracle. *)
+From FV.Proofs Require Import OracleC10.
+
+(* synchronized collector: any inner acceptance function (also a full base collector), any number
+   of producers, every schedule after which all Adds have returned *)
+Theorem C10_oracle_sync_sound : forall accepts size progs sched s pre,
+  sync_progs progs ->
+  run accepts size (init progs) sched = Some s -> (forall g, prog s g = []) ->
+  c10_ok_sync (obs_adds pre (ghist s)) (log s) 0 = true.
+Proof. exact c10_sync_oracle_sound. Qed.
+Print Assumptions C10_oracle_sync_sound.
+
+(* buffered collector over an inner collector that refuses nothing (the check runs it over the
+   dynamic collector; with a refusing inner collector a sample acknowledged before the cancel
+   event may end in the catcher instead of the output - C10_buffered_delivery - and the oracle's
+   third clause would not follow): every schedule up to s1, the cancel event, every schedule
+   from there to a quiescent state *)
+Theorem C10_oracle_buffered_sound : forall accepts size, (forall l x, accepts l x = true) ->
+  forall progs sched1 s1 s2 sched2 s,
+  buf_progs progs ->
+  run accepts size (init progs) sched1 = Some s1 ->
+  step accepts size s1 Cancel = Some s2 ->
+  run accepts size s2 sched2 = Some s ->
+  quiescent accepts size s ->
+  c10_ok_buffered (obs_adds (backed (ghist s1)) (ghist s)) (log s) 0 = true.
+Proof. exact c10_buffered_oracle_sound. Qed.
+Print Assumptions C10_oracle_buffered_sound.
+
+(* catcher: every schedule after which all goroutines have finished *)
+Theorem C10_oracle_catcher_sound : forall progs sched s,
+  krun (kinit progs) sched = Some s -> (forall g, kprog s g = []) ->
+  c10_ok_catcher (cat_expected progs) (kerrs s) (length (kerrs s))
+                 (negb (length (kerrs s) =? 0)) (negb (length (kerrs s) =? 0)) = true.
+Proof. exact c10_catcher_oracle_sound. Qed.
+Print Assumptions C10_oracle_catcher_sound.
+
+(* the programs of C10_delivery_nonvacuous have the harness's shape *)
+Example C10_oracle_nonvacuous : buf_progs ex_progs /\ sync_progs [[OAdd 0; OAdd 1; OAdd 2]; [OAdd 0]].
+Proof.
+  split; intros g.
+  - destruct g as [|[|g]].
+    + exists [0; 1]. split; [reflexivity|]. repeat constructor.
+    + exists [0]. split; [reflexivity|]. repeat constructor.
+    + exists []. split; [destruct g; reflexivity | constructor].
+  - destruct g as [|[|g]].
+    + exists [0; 1; 2]. split; [reflexivity|]. repeat constructor.
+    + exists [0]. split; [reflexivity|]. repeat constructor.
+    + exists []. split; [destruct g; reflexivity | constructor].
+Qed.
